@@ -57,8 +57,53 @@ func typeOpts() gen.TypeOpts {
 
 var siblingKinds = []ref.Kind{ref.KInt8, ref.KUint16, ref.KInt32, ref.KUint64, ref.KFloat32, ref.KBool, ref.KString}
 
+// collidingFields reports whether some struct of the type has two members
+// whose Go field names would collide (same name, or same name up to the case
+// of the first letter): such a signature is in the grammar and must print as
+// it was written, but it has no Go representation (reflect.StructOf refuses
+// duplicate fields), so that part of the check is left out for it.
+func collidingFields(t *ref.Type) bool {
+	found := false
+	t.Walk(func(n *ref.Type) {
+		if n.Kind != ref.KStruct {
+			return
+		}
+		seen := map[string]bool{}
+		for _, f := range n.Fields {
+			k := strings.ToUpper(f[:1]) + f[1:]
+			if seen[k] {
+				found = true
+			}
+			seen[k] = true
+		}
+	})
+	return found
+}
+
 func genGrammar(t *rapid.T) Case {
 	ty := gen.DrawType(t, typeOpts())
+	// now and then two members of a struct get the same name, or names which
+	// differ by the case of their first letter
+	if rapid.IntRange(0, 7).Draw(t, "dupfield") == 0 {
+		var structs []*ref.Type
+		ty.Walk(func(n *ref.Type) {
+			if n.Kind == ref.KStruct && len(n.Fields) >= 2 {
+				structs = append(structs, n)
+			}
+		})
+		if len(structs) > 0 {
+			n := structs[rapid.IntRange(0, len(structs)-1).Draw(t, "dupstruct")]
+			f := n.Fields[0]
+			if rapid.Bool().Draw(t, "casevariant") {
+				if f[:1] == strings.ToUpper(f[:1]) {
+					f = strings.ToLower(f[:1]) + f[1:]
+				} else {
+					f = strings.ToUpper(f[:1]) + f[1:]
+				}
+			}
+			n.Fields[len(n.Fields)-1] = f
+		}
+	}
 	c := Case{Kind: "grammar", Sig: ty.Sig()}
 	// a sibling: one scalar leaf of a fresh copy of the type gets another kind
 	cp, err := ref.ParseSig(c.Sig)
@@ -254,12 +299,16 @@ func checkOne(c Case, count bool) error {
 	if got, want := ty.SignatureIDL(), rt.IDL(); got != want {
 		return vt.Violationf("C09:idl-name", "Parse(%q).SignatureIDL() = %q, want %q", c.Sig, got, want)
 	}
-	gt, p := goType(ty)
-	if p != nil {
-		return vt.Violationf("C09:gotype-panic", "Parse(%q).Type() panicked: %v", c.Sig, p)
-	}
-	if err := consistent(rt, gt); err != nil {
-		return vt.Violationf("C09:gotype-inconsistent", "Parse(%q).Type(): %v", c.Sig, err)
+	if collidingFields(rt) {
+		vt.Label("struct-with-colliding-member-names")
+	} else {
+		gt, p := goType(ty)
+		if p != nil {
+			return vt.Violationf("C09:gotype-panic", "Parse(%q).Type() panicked: %v", c.Sig, p)
+		}
+		if err := consistent(rt, gt); err != nil {
+			return vt.Violationf("C09:gotype-inconsistent", "Parse(%q).Type(): %v", c.Sig, err)
+		}
 	}
 	if ty.Reader() == nil {
 		return vt.Violationf("C09:nil-reader", "Parse(%q).Reader() is nil", c.Sig)
